@@ -176,7 +176,7 @@ PROPS["C09"] = {
         {"name": "dictionary", "mode": "plain", "run": "TestC09Dictionary", "shards": 4},
         {"name": "rapid", "mode": "rapid", "run": "TestC09Rapid", "checks": {"quick": 24000, "thorough": 480000}},
         {"name": "concurrent", "mode": "rapid", "run": "TestC09Concurrent", "race": True, "shards": 8, "checks": {"quick": 160, "thorough": 8000}},
-        {"name": "large", "mode": "plain", "run": "TestC09Large", "shards": {"quick": 3, "thorough": 6}},
+        {"name": "large", "mode": "plain", "run": "TestC09Large", "shards": {"quick": 3, "thorough": 6}, "timeout": {"quick": 2400, "thorough": 5400}},
     ],
 }
 
